@@ -563,8 +563,11 @@ func (r *RIB) addEntryInternal(ni string, op *spb.AFTOperation, oks, fails *[]*O
 	switch {
 	case opErr != nil:
 		// The operation can never be installed. If it was being held waiting for
-		// its references, stop holding it so that it is reported as failed once.
+		// its references, stop holding it so that it is reported as failed once,
+		// and do not retry it from a snapshot of the pending entries that an
+		// enclosing call is still walking.
 		r.rmPending(op.GetId())
+		installStack[op.GetId()] = true
 		*fails = append(*fails, &OpResult{
 			ID:    op.GetId(),
 			Op:    op,
